@@ -983,8 +983,12 @@ func (r *Runner) ensureStorage() error {
 	if r.Runstackpos < r.runtrackcount*4 {
 		doubleIntSlice(&r.runstack, &r.Runstackpos)
 	}
-	if r.Runtrackpos < r.runtrackcount*4 && !r.growTrack() {
-		return ErrBacktrackingStackLimit
+	if r.Runtrackpos < r.runtrackcount*4 {
+		// growTrack may grow by less than it was asked for (the limit clamps the
+		// new length), so the reserve is tested again after it
+		if !r.growTrack() || r.Runtrackpos < r.runtrackcount*4 {
+			return ErrBacktrackingStackLimit
+		}
 	}
 	return nil
 }
